@@ -398,7 +398,7 @@ func exec(op string) string {
 		if !ok || a[0] == a[1] {
 			return "skip"
 		}
-		if !sim.Dead(a[0], a[1], func(x int) (uint64, bool) { return dvsim.FaceOf(x), true }) {
+		if !sim.Dead(a[0], sim.Nodes[a[1]].Name) {
 			return "skip"
 		}
 		return sim.DumpRib(a[0])
